@@ -696,6 +696,21 @@ func c10Negative(c *core.Ctx, i int, r *core.Rng, res *core.Result) *core.Result
 	}
 	if o.Err == nil {
 		res.Violate("bad-record-converted-without-error:"+bad[k][0], fmt.Sprintf("%s on a record with %s (%s) must report an error, got %s", route, bad[k][1], bad[k][0], core.Trunc(OutStr(o), 300)), text+route)
+		return res
+	}
+	// the record stays unconvertible: the same and every other route must fail again (a conversion that
+	// failed must not leave a half-filled Go struct attached that later calls then use)
+	for _, again := range []string{route, routes[r.N(len(routes))], "(_method r Describe:)"} {
+		o2 := s.Eval(again+"\n", 0)
+		res.Evals++
+		if o2.Panic != "" {
+			res.Violate("escaped-panic:"+o2.Site, o2.Panic, text+route+"\n"+again)
+			return res
+		}
+		if o2.Err == nil {
+			res.Violate("bad-record-converted-without-error:second-attempt:"+bad[k][0], fmt.Sprintf("after %s failed on a record with %s, %s succeeds: %s", route, bad[k][1], again, core.Trunc(OutStr(o2), 300)), text+route+"\n"+again)
+			return res
+		}
 	}
 	return res
 }
